@@ -240,6 +240,15 @@ def it_iterator(ctx, rep):
                 rep.check(not sends, "IT2", "feeder-without-sender-is-silent:%s" % b.j.get("name"), ctx.where(b), "no sender: nothing sent", "sends without sender?")
                 continue
             good = len(sends) == 1 and sends[0].args[1][0] == "agg" and sends[0].args[1][1].endswith("::" + want)
+            if not good and want == "Exit":
+                # end of stream by disconnection instead of an in-band marker: the release takes
+                # the feeder's sender out of its slot (and thereby drops it); at most one Exit is
+                # offered on the way.  next() ends on a disconnected channel (IT3).
+                took = [e for e in p.calls() if e.ck in ("std::option::Option::take", "std::mem::take") and any(st[0] == "field" and st[2] == A.f_feed_tx for st in subterms(e.args[0]))]
+                exits = [e for e in sends if e.args[1][0] == "agg" and e.args[1][1].endswith("::Exit")]
+                if took and len(exits) == len(sends) <= 1:
+                    rep.ok("IT2", "feeder-forwards-once:%s" % b.j.get("name"), ctx.where(b, took[0].bb), "on_unsubscribe gives up the feeder's sender: the stream ends by disconnection")
+                    continue
             if good and want == "Action":
                 payload = sends[0].args[1][2][0]
                 good = payload == ("agg", "tuple", (("clone", ("param", 2)), ("clone", ("param", 3))))
